@@ -75,6 +75,47 @@ def run_case(c):
     return rec
 
 
+def run_data_case(c):
+    """A data-driven subclass (families.py: tsonis, hilbert) driven along an ObjectSM history; after every
+    step the object's own similarity matrix, threshold and network are recorded."""
+    from props import families
+    fam = families.FAMILIES[c["family"]]
+    a = dict(families.INIT[c["family"]])
+    obj = fam.build(a)
+    steps = []
+
+    def obs(after, rho):
+        o = {"exc": "", "rho": rho}
+        try:
+            o["S6"] = enc.arr(np.abs(obj.similarity_measure()))
+            o["thr"] = enc.num(obj.threshold())
+            o["adj"] = enc.ints(obj.adjacency)
+            o["n_links"] = int(obj.n_links)
+            o["ld"] = enc.num(obj.link_density)
+            o["directed"] = int(bool(obj.directed))
+            o["nl"] = int(bool(obj.non_local()))
+            o["filtered"] = int(c["family"] == "hilbert" and bool(obj.directed))
+            o["phase"] = enc.arr(obj.phase_shift()) if o["filtered"] else []
+        except Exception as ex:
+            o["exc"] = type(ex).__name__
+        steps.append({"after": after, "obs": o})
+    obs("construct", [])
+    for m, v in c["hist"]:
+        exc = ""
+        try:
+            fam.mutate(obj, m, v)
+        except Exception as ex:
+            exc = type(ex).__name__
+        a = families.apply_abs(a, m, v)
+        rho = []
+        if m == "set_link_density":
+            from fractions import Fraction
+            fr = Fraction(families.CLIM_PARAM["link_density"][v]).limit_denominator(100)
+            rho = [fr.numerator, fr.denominator]
+        obs(m + (":" + exc if exc else ""), rho)
+    return {"case": c["case"], "family": c["family"], "hist": c["hist"], "steps": steps}
+
+
 def _nontrivial(rec):
     return len(rec["steps"]) >= 1
 
@@ -92,10 +133,23 @@ def main(ctx):
     ctx.extra["scope"] = open(os.path.join(os.path.dirname(__file__), "..", "spec", cfg + ".cfg")).read().split()
     recs = ctx.run_cases("props.c09.run_case", cases)
     ctx.validate("Val_C09", "Val_C09", recs, nontrivial=_nontrivial)
+    # data-driven subclasses: ObjectSM histories (depth 2 quick / 3 thorough) of the tsonis and hilbert families
+    from props import c01
+    dcases = []
+    for fam in ("tsonis", "hilbert"):
+        for k, h in enumerate(c01.gen_histories(ctx, fam, 2 if ctx.tier == "quick" else 3)):
+            dcases.append({"case": "d_%s_%d" % (fam, k), "family": fam, "hist": [list(m) for m in h]})
+    drecs = ctx.run_cases("props.c09.run_data_case", dcases)
+    ctx.validate("Val_C09d", "Val_C09d", drecs, stage="Val_C09d", nontrivial=lambda r: len(r["hist"]) >= 1)
 
 
 def replay(ctx, rep):
     rec = rep["record"]
+    if rec["case"].startswith("d_"):
+        case = {k: rec[k] for k in ("case", "family", "hist")}
+        drecs = ctx.run_cases("props.c09.run_data_case", [case], jobs=1)
+        ctx.validate("Val_C09d", "Val_C09d", drecs, stage="Val_C09d")
+        return
     case = {k: v for k, v in rec.items() if k != "events"}
     recs = ctx.run_cases("props.c09.run_case", [case], jobs=1)
     ctx.validate("Val_C09", "Val_C09", recs, nontrivial=_nontrivial)
